@@ -1068,6 +1068,8 @@ pub struct RandCfg {
     pub clears: bool,
     /// one in `clear_den` of the calls of the last group is a clear (default 5; small = clear churn)
     pub clear_den: u64,
+    /// >= 0: every instance is constructed with this capacity hint (default: drawn from 0, 1, 8, 9, 33)
+    pub cap: i64,
     /// sets: one call in `walk_den` is followed by full backward and forward walks (0 = never)
     pub walk_den: u64,
 }
@@ -1075,7 +1077,7 @@ pub struct RandCfg {
 /// seeded random in-contract histories with handles held across insertions
 pub fn run_random<C: OrdColl>(tr: &mut Trace, cfg: &RandCfg) {
     let mut rng = Rng::new(cfg.seed);
-    let caps = [0usize, 1, 8, 9, 33];
+    let caps = if cfg.cap >= 0 { [cfg.cap as usize; 5] } else { [0usize, 1, 8, 9, 33] };
     let mut s: OrdSession<C> = OrdSession::new(tr, cfg.keys, caps[(rng.next() % 5) as usize], 5);
     s.snap_every = cfg.snap_every;
     s.reset(s.cap);
